@@ -63,4 +63,11 @@ CHECKS = {
         "level_note": "FIFO links; Byzantine alphabet: membership/query/response with own, replayed and random tags and a catalogue of views; bounds per configuration in the case ids (dN)",
         "budget_s": {"quick": 170, "thorough": 900},
     },
+    "C11": {
+        "pkg": "checks/c11", "level": "fault_enumeration", "engine": "E1 bubble-net",
+        "technique": "exhaustive fault enumeration on the real stack in a synctest bubble: every peer x every cut-off point of its transmissions, every single withheld message, cancellation at every big step, unusable stored data",
+        "level_text": "for every listed stack/mode/operation every fault cell derived from the default schedule's send log is executed to the virtual deadline plus one further virtual minute; a panic in any goroutine kills the worker and is attributed to the cell",
+        "level_note": "default delivery schedule under each fault; n=3 (thorough: 4); deadlines are virtual",
+        "budget_s": {"quick": 170, "thorough": 900},
+    },
 }
